@@ -641,7 +641,7 @@ fn main_op(sched: &Arc<Sched>, sh: &Arc<Shared>, ms: &mut MainState, op: &Value)
         sched.yield_want(Want::Step);
     }
     match name {
-        "poll" => {
+        "poll" | "trypoll" => {
             do_poll(sched, ms, false);
         }
         "wake" => {
